@@ -58,6 +58,80 @@ def strip_doc(body):
     return body
 
 
+def _names(node, ctx=None):
+    return {n.id for n in ast.walk(node) if isinstance(n, ast.Name) and (ctx is None or isinstance(n.ctx, ctx))}
+
+
+def normalize(fn_node, body):
+    """Two mechanical, semantics-preserving rewritings applied to the extracted body before verification (listed in the evidence
+    as part of the extraction), so that a loop written out by hand is seen as the comprehension it is:
+
+      ACC = []                                   ACC = [E for T in S if C]
+      for T in S:            ==>
+          [if C:] ACC.append(E)
+
+      for K in M:                                if not any(COND for K in M):
+          if COND: break     ==>                     BODY
+      else:
+          BODY
+
+    Conditions (checked): T / K and ACC are plain names; the loop variable is used nowhere outside the loop; ACC does not occur in
+    S, C, E; for the first rewriting the function has no try statement (a partially filled ACC could be observed by a handler).  Evaluation order, the
+    number of calls to user code and short-circuiting are the same in both forms."""
+    has_try = any(isinstance(n, ast.Try) for n in ast.walk(fn_node))
+    all_names = [n.id for n in ast.walk(fn_node) if isinstance(n, ast.Name)]
+
+    def only_in(name, loop):
+        return all_names.count(name) == sum(1 for n in ast.walk(loop) if isinstance(n, ast.Name) and n.id == name)
+
+    def rewrite(stmts):
+        out = []
+        i = 0
+        while i < len(stmts):
+            st = stmts[i]
+            nxt = stmts[i + 1] if i + 1 < len(stmts) else None
+            # accumulate loop
+            if (not has_try and isinstance(st, ast.Assign) and len(st.targets) == 1 and isinstance(st.targets[0], ast.Name)
+                    and isinstance(st.value, ast.List) and not st.value.elts and isinstance(nxt, ast.For) and not nxt.orelse
+                    and isinstance(nxt.target, ast.Name) and len(nxt.body) == 1):
+                acc, inner, cond = st.targets[0].id, nxt.body[0], None
+                if isinstance(inner, ast.If) and not inner.orelse and len(inner.body) == 1:
+                    cond, inner = inner.test, inner.body[0]
+                if (isinstance(inner, ast.Expr) and isinstance(inner.value, ast.Call) and isinstance(inner.value.func, ast.Attribute)
+                        and inner.value.func.attr == "append" and isinstance(inner.value.func.value, ast.Name)
+                        and inner.value.func.value.id == acc and len(inner.value.args) == 1 and not inner.value.keywords):
+                    elt = inner.value.args[0]
+                    used = _names(nxt.iter) | _names(elt) | (_names(cond) if cond is not None else set())
+                    if acc not in used and acc != nxt.target.id and only_in(nxt.target.id, nxt):
+                        comp = ast.ListComp(elt=elt, generators=[ast.comprehension(target=nxt.target, iter=nxt.iter,
+                                                                                  ifs=[cond] if cond is not None else [], is_async=0)])
+                        new = ast.Assign(targets=[ast.Name(id=acc, ctx=ast.Store())], value=comp)
+                        out.append(ast.fix_missing_locations(ast.copy_location(new, st)))
+                        i += 2
+                        continue
+            # search loop with else
+            if (isinstance(st, ast.For) and st.orelse and isinstance(st.target, ast.Name) and len(st.body) == 1
+                    and isinstance(st.body[0], ast.If) and not st.body[0].orelse and len(st.body[0].body) == 1
+                    and isinstance(st.body[0].body[0], ast.Break) and only_in(st.target.id, st)
+                    and st.target.id not in _names(st.iter)):
+                gen = ast.GeneratorExp(elt=st.body[0].test, generators=[ast.comprehension(target=st.target, iter=st.iter, ifs=[], is_async=0)])
+                test = ast.UnaryOp(op=ast.Not(), operand=ast.Call(func=ast.Name(id="any", ctx=ast.Load()), args=[gen], keywords=[]))
+                new = ast.If(test=test, body=rewrite(st.orelse), orelse=[])
+                out.append(ast.fix_missing_locations(ast.copy_location(new, st)))
+                i += 1
+                continue
+            # recurse into compound statements
+            for fld in ("body", "orelse", "finalbody"):
+                sub = getattr(st, fld, None)
+                if isinstance(sub, list) and sub and isinstance(sub[0], ast.stmt):
+                    setattr(st, fld, rewrite(sub))
+            out.append(st)
+            i += 1
+        return out
+    import copy
+    return rewrite(copy.deepcopy(body))
+
+
 def mangle(cls, attr):
     if cls and attr.startswith("__") and not attr.endswith("__"):
         return "_%s%s" % (cls.lstrip("_"), attr)
@@ -126,7 +200,7 @@ def members(relpath, cls):
         if isinstance(fn, ast.FunctionDef):
             role, kept = _role(fn)
             _check_decorators(relpath, cls, fn, kept)
-            out[(mangle(cls, fn.name), role)] = FuncInfo(relpath, cls, fn.name, role, fn, strip_doc(fn.body), kept)
+            out[(mangle(cls, fn.name), role)] = FuncInfo(relpath, cls, fn.name, role, fn, normalize(fn, strip_doc(fn.body)), kept)
     return out
 
 
@@ -137,7 +211,7 @@ def get_function(relpath, cls, name, role="method"):
             if isinstance(n, ast.FunctionDef) and n.name == name:
                 _, kept = _role(n)
                 _check_decorators(relpath, None, n, kept)
-                return FuncInfo(relpath, None, name, "function", n, strip_doc(n.body), kept)
+                return FuncInfo(relpath, None, name, "function", n, normalize(n, strip_doc(n.body)), kept)
         raise StructError("function %s not found in %s" % (name, relpath))
     ms = members(relpath, cls)
     k = (mangle(cls, name), role)
@@ -165,3 +239,25 @@ def class_assign(relpath, cls, name):
 
 def class_bases(relpath, cls):
     return [ast.unparse(b) for b in class_node(relpath, cls).bases]
+
+
+def keyword_call_sites(name):
+    """keyword names used by any call `name(...)` / `x.name(...)` in the package (parameter renames of a protected helper are
+    invisible exactly when every caller passes positionally)"""
+    out = set()
+    root = os.path.join(REPO, "anytree")
+    for dp, _, fs in os.walk(root):
+        for f in fs:
+            if not f.endswith(".py"):
+                continue
+            try:
+                tree = parse(os.path.relpath(os.path.join(dp, f), REPO))
+            except StructError:
+                continue
+            for n in ast.walk(tree):
+                if isinstance(n, ast.Call) and n.keywords:
+                    fn = n.func
+                    nm = fn.attr if isinstance(fn, ast.Attribute) else (fn.id if isinstance(fn, ast.Name) else None)
+                    if nm is not None and (nm == name or nm.endswith("__" + name.lstrip("_")) and name.startswith("__")):
+                        out |= {k.arg for k in n.keywords if k.arg}
+    return out
